@@ -175,6 +175,7 @@ func main() {
 		fmt.Println("replay case:", string(raw), "(re-running the whole quick check reproduces it deterministically)")
 	}
 	clog.SetLogLevel("crit")
+	r.QuietStderr()
 	for _, b := range bes {
 		b := b
 		if o := os.Getenv("C06_ONLY"); o != "" && o != b.name {
